@@ -138,7 +138,8 @@ void spline_filter1d(numpy::aligned_array<FT> array, const int order, const int 
 template <typename FT>
 void spline_coefficients(FT x, const int order, std::vector<FT>& result)
 {
-    const FT start = floor(x + 0.5*(order & 1)) - order / 2;
+    /* odd orders: the order+1 knots surrounding x; even orders: centred on the knot nearest to x */
+    const FT start = floor((order & 1) ? x : x + 0.5) - order / 2;
 
     for(int hh = 0; hh <= order; hh++)  {
         FT y = fabs(start - x + hh);
@@ -253,9 +254,13 @@ void zoom_shift(const numpy::aligned_array<FT> array, PyArrayObject* zoom_ar,
             FT cc = kk;
             if (shifts) cc += shifts[r];
             if (zooms) cc *= zooms[r];
-            cc = fix_offset(ExtendMode(mode), npy_intp(std_like_round(cc + 0.5)), array.dim(r));
+            if (cc < 0 || cc > array.dim(r) - 1) {
+                /* outside of the array: apply the border rule to the nearest sample position.
+                 * Coordinates inside the array keep their fractional part */
+                cc = fix_offset(ExtendMode(mode), npy_intp(std_like_round(cc)), array.dim(r));
+            }
             if (cc != border_flag_value) {
-                const int start = int(floor(cc + 0.5*(order & 1)) - order / 2);
+                const int start = int(floor((order & 1) ? cc : cc + 0.5) - order / 2);
                 offsets[r][kk] = array.stride(r) * start;
                 if (start < 0 || start + order >= array.dim(r)) {
                     edge_offsets[r][kk].resize(order + 1);
